@@ -11,8 +11,8 @@ import signal
 from typing import Any, Dict, List
 
 ID = "C15"
-LEAN_MODULES = ["FaxVerif.C15.Theorems"]
-LEAN_SOURCES = ["FaxVerif/C15"]
+LEAN_MODULES = ["FaxVerif.C15.All"]
+LEAN_SOURCES = ["FaxVerif/C15", "FaxVerif/Generated/C15Template.lean"]
 DRIVER = "FaxVerif/C15/Driver.lean"
 THEOREMS = [
     "FaxVerif.C15.sound",
@@ -20,22 +20,154 @@ THEOREMS = [
     "FaxVerif.C15.error_justified",
     "FaxVerif.C15.complete",
     "FaxVerif.C15.merge",
+    # determinism / stability of the emitted order (OrderTheorems.lean)
+    "FaxVerif.C15.order_fifo",
+    "FaxVerif.C15.order_unique",
+    "FaxVerif.C15.canonical",
+    "FaxVerif.C15.order_congr",
+    "FaxVerif.C15.set_arrival_invariant",
+    "FaxVerif.C15.dup_invariant",
+    "FaxVerif.C15.deps_invariant",
+    "FaxVerif.C15.deps_perm_invariant",
+    "FaxVerif.C15.sorted_fixed",
+    "FaxVerif.C15.idempotent",
+    "FaxVerif.C15.refusal_kind_iff",
+    "FaxVerif.C15.perm_refusal_invariant",
+    "FaxVerif.C15.perm_ok",
+    "FaxVerif.C15.arrival_order_matters_counterexample",
+    "FaxVerif.C15.dup_before_first_counterexample",
+    "FaxVerif.C15.not_kahn_counterexample",
+    # exact refusal condition (RefusalTheorems.lean)
+    "FaxVerif.C15.cyclic_iff_hasCycle",
+    "FaxVerif.C15.refused_iff",
+    "FaxVerif.C15.accepted_iff",
+    "FaxVerif.C15.self_dep_refused",
+    "FaxVerif.C15.hasCycle_iff_list",
+    "FaxVerif.C15.cycle_refused",
+    "FaxVerif.C15.cycle_kind",
+    # executor-level path and rendering (ExecTheorems.lean)
+    "FaxVerif.C15.template_shape",
+    "FaxVerif.C15.template_separators",
+    "FaxVerif.C15.render_exact",
+    "FaxVerif.C15.exec_sound",
+    "FaxVerif.C15.exec_refused_iff",
+    "FaxVerif.C15.template_never",
+    "FaxVerif.C15.exec_bad_metadata",
+    "FaxVerif.C15.exec_conflict",
+    "FaxVerif.C15.exec_union",
+    "FaxVerif.C15.session_ok",
+    "FaxVerif.C15.session_refused_keeps_blocks",
 ]
 RULE = (
     "block lists over names {a,b,c,(d,e,f)} with dependency lists drawn from the names plus one never-sent name, "
     "scripts from a pool containing empty, one-line, two-line and shared lines; exhaustive for <=2 blocks (quick) / "
     "<=3 blocks over a reduced alphabet (thorough), random up to 12 blocks beyond. A case is non-trivial when it has "
-    ">=2 blocks and at least one dependency edge or one repeated name; distinct = distinct block list."
+    ">=2 blocks and at least one dependency edge or one repeated name; distinct = distinct block list. Metamorphic stream: "
+    "random lists re-sent in the emitted order, with a copy inserted after a first copy, with depends_on lists shuffled / "
+    "entries repeated, with later copies moved, fully shuffled. Executor stream: sessions of 1-3 translations on one ATLAS "
+    "executor, each of 1-2 queries whose trees carry MetaData calls around the dataset, around the query and inside the "
+    "lambda body (add_job_script with depends_on present or left out, inject_code items in between, rarely an unknown "
+    "metadata type)."
 )
 TRUSTED_BASE = [
     "hand model of generate_script_block (Model.lean) tied to the code by the correspondence stream of this run",
     "the harness tools/props/c15.py (generators, canonicalisation: result lines or exception class)",
     "end-to-end stream: the real ATLAS pipeline (process_metadata, executor accumulation, generate_script_block, jinja) on the same block lists, judged by the Spec on the lines it inserts into ATestRun_eljob.py",
+    "translator of ATestRun_eljob.py into Generated/C15Template.lean (tokens of jinja2's own lexer under the Environment defaults the executor uses)",
+    "hand model of the executor path (ModelExec.lean: extract_metadata order, process_metadata, accumulation, write/reset) tied to the code by the executor stream of this run",
 ]
 ASSUMPTIONS = [
     "Python dicts iterate in insertion order (language guarantee since 3.7)",
     "block names, script lines and dependencies are strings",
 ]
+
+def template_items(src: str):
+    """ATestRun_eljob.py as a list of items, from the tokens of jinja2's own lexer under the Environment defaults the
+    executor uses (`jinja2.Environment(loader=...)`). Anything that is not plain text, a filter-free `{% for v in seq %}`
+    ... `{% endfor %}` at top level or a filter-free `{{ v }}` inside it becomes an explicit `unrecognised` item."""
+    import jinja2
+
+    toks = [t for t in jinja2.Environment().lex(src) if t[1] != "whitespace"]
+    items, body, loop = [], None, None
+    i = 0
+
+    def tag(i, end):
+        j = i + 1
+        inner = []
+        while j < len(toks) and toks[j][1] != end:
+            inner.append(toks[j])
+            j += 1
+        return inner, j + 1
+
+    def show(open_, inner, close):
+        return open_ + " " + " ".join(str(t[2]) for t in inner) + " " + close
+
+    while i < len(toks):
+        _, typ, val = toks[i]
+        if typ == "data":
+            (items if body is None else body).append(("text", val))
+            i += 1
+        elif typ == "block_begin":
+            inner, i = tag(i, "block_end")
+            kinds = [(t[1], t[2]) for t in inner]
+            plain = val == "{%" or val == "{%-"
+            if (body is None and len(kinds) == 4 and kinds[0] == ("name", "for") and kinds[1][0] == "name"
+                    and kinds[2] == ("name", "in") and kinds[3][0] == "name"):
+                loop, body = (kinds[1][1], kinds[3][1]), []
+            elif body is not None and kinds == [("name", "endfor")]:
+                items.append(("forEach", loop[0], loop[1], body))
+                loop, body = None, None
+            else:
+                (items if body is None else body).append(("unrecognised", show("{%", inner, "%}")))
+        elif typ == "variable_begin":
+            inner, i = tag(i, "variable_end")
+            kinds = [(t[1], t[2]) for t in inner]
+            if body is not None and len(kinds) == 1 and kinds[0][0] == "name":
+                body.append(("var", kinds[0][1]))
+            else:
+                (items if body is None else body).append(("unrecognised", show("{{", inner, "}}")))
+        else:
+            (items if body is None else body).append(("unrecognised", f"{typ}:{val}"))
+            i += 1
+    if body is not None:  # a loop that is never closed
+        items.append(("unrecognised", "{% for " + loop[0] + " in " + loop[1] + " %} without endfor"))
+        items.extend(("unrecognised", "loop-body:" + repr(b)) for b in body)
+    return items
+
+
+def template_lean(items) -> str:
+    from vlib import lean_str
+
+    def b(x):
+        return f".{x[0]} {lean_str(x[1])}"
+
+    def t(x):
+        if x[0] == "forEach":
+            return f".forEach {lean_str(x[1])} {lean_str(x[2])} [" + ", ".join(b(y) for y in x[3]) + "]"
+        return f".{x[0]} {lean_str(x[1])}"
+
+    return (
+        "/- generated by tools/props/c15.py from func_adl_xAOD/template/atlas/r21/ATestRun_eljob.py (tokens of jinja2's\n"
+        "   lexer) on every run - do not edit -/\n"
+        "import FaxVerif.C15.Tmpl\n"
+        "namespace FaxVerif.C15.Gen\n"
+        "open FaxVerif.C15\n\n"
+        "def eljobItems : List TItem := [\n  " + ",\n  ".join(t(x) for x in items) + "\n]\n\n"
+        "end FaxVerif.C15.Gen\n"
+    )
+
+
+def translate(ctx):
+    """Tie T: regenerate Generated/C15Template.lean from the template's source."""
+    import vlib
+
+    src = (vlib.REPO / "func_adl_xAOD/template/atlas/r21/ATestRun_eljob.py").read_text()
+    try:
+        items = template_items(src)
+    except Exception as e:  # a template jinja2 itself cannot tokenise
+        items = [("unrecognised", f"lexer: {type(e).__name__}: {e}")]
+    vlib.write_if_changed(vlib.LEAN / "FaxVerif/Generated/C15Template.lean", template_lean(items))
+
 
 NAMES = ["a", "b", "c"]
 SCRIPTS = [[], ["l1"], ["l1", "l2"], ["l3"]]
@@ -240,6 +372,16 @@ def run(ctx):
         # the tie: model and implementation agree
         if canon_model(m) != r:
             ctx.disagreement("generate_script_block", {"blocks": blocks}, canon_model(m), r)
+        # executable twins of the specification-level notions of the order / refusal theorems, on the same input
+        if "ok" in m and m.get("fifo") != m.get("order"):
+            ctx.disagreement("model order vs the FIFO work list of SpecOrder.lean (theorem order_fifo)", {"blocks": blocks}, m.get("order"), m.get("fifo"))
+        if ("ok" in m and m.get("cycle")) or (m.get("err") == "cycle" and not m.get("cycle")):
+            ctx.disagreement("model refusal vs closed-walk search (theorem refused_iff)", {"blocks": blocks}, m.get("err", "ok"), m.get("cycle"))
+    ctx.check_time()
+    run_metamorphic(ctx)
+    ctx.check_time()
+    run_exec(ctx)
+    ctx.check_time()
     run_e2e(ctx)
     ctx.extra_cov["exhaustive"] = False
     ctx.extra_cov["exhaustive_part"] = "all block lists of <=2 blocks over 3 names x 4 scripts x dependency lists of <=2 entries from 4 names" + (
@@ -287,6 +429,245 @@ def run_e2e(ctx):
             ctx.disagreement("pipeline accepts/refuses vs model", {"blocks": b}, canon_model(m), r)
 
 
+
+# ---------------------------------------------------------------------------------------------------------------
+# metamorphic stream: the invariance / stability theorems, instantiated on the real generate_script_block
+# ---------------------------------------------------------------------------------------------------------------
+
+def _variants(rng, b, order):
+    """(kind, variant, relation) - relation 'same': identical result; 'perm': same acceptance, same multiset of lines"""
+    out = []
+    if b:
+        i = rng.randrange(len(b))
+        j = rng.randint(i + 1, len(b))
+        out.append(("dup_invariant", b[:j] + [dict(b[i])] + b[j:], "same"))
+    v = []
+    for blk in b:
+        d = list(blk["deps"])
+        rng.shuffle(d)
+        if d and rng.random() < 0.4:
+            d.insert(rng.randrange(len(d) + 1), rng.choice(d))
+        v.append({**blk, "deps": d})
+    out.append(("deps_invariant", v, "same"))
+    first, later = [], []
+    seen = set()
+    for blk in b:
+        (later if blk["name"] in seen else first).append(blk)
+        seen.add(blk["name"])
+    v = list(first)
+    for blk in later:
+        k = next(i for i, x in enumerate(v) if x["name"] == blk["name"])
+        v.insert(rng.randint(k + 1, len(v)), blk)
+    out.append(("set_arrival_invariant", v, "same"))
+    v = list(b)
+    rng.shuffle(v)
+    out.append(("perm_refusal_invariant/perm_ok", v, "perm"))
+    if order is not None:
+        canon = []
+        for n in order:
+            same = [x for x in b if x["name"] == n]
+            canon.append({"name": n, "script": list(same[0]["script"]), "deps": [d for x in same for d in x["deps"]]})
+        out.append(("idempotent", canon, "same"))
+    return out
+
+
+def run_metamorphic(ctx):
+    n = 1200 if ctx.tier == "quick" else 15000
+    bases = [random_case(ctx.rng) for _ in range(n)]
+    res = [impl(b) for b in bases]
+    ans = ctx.driver(DRIVER, [{"op": "gen", "blocks": b} for b in bases])
+    for b, r, m in zip(bases, res, ans):
+        if "bad" in m:
+            continue
+        order = m.get("order") if "ok" in r and "ok" in m else None
+        for kind, v, rel in _variants(ctx.rng, b, order):
+            rv = impl(v)
+            ctx.count("stream:metamorphic")
+            ctx.count("metamorphic:" + kind)
+            ctx.case(("meta", kind, b, v), nontrivial(b), None)
+            if rel == "same":
+                good = rv == r
+            else:
+                good = ("ok" in rv) == ("ok" in r) and rv.get("err") == r.get("err") and sorted(rv.get("ok", [])) == sorted(r.get("ok", []))
+            if not good:
+                ctx.disagreement(f"metamorphic:{kind} (a theorem about the model that the implementation no longer follows)", {"blocks": b, "variant": v}, r, rv)
+
+
+# ---------------------------------------------------------------------------------------------------------------
+# executor stream: sessions on one real ATLAS executor against ModelExec.lean
+# ---------------------------------------------------------------------------------------------------------------
+
+_TAIL = ".Jets('AntiKt4EMTopoJets').Count()"
+
+
+def _split(rng, items, k):
+    cuts = sorted(rng.randint(0, len(items)) for _ in range(k - 1))
+    parts, a = [], 0
+    for c in cuts + [len(items)]:
+        parts.append(items[a:c])
+        a = c
+    return parts
+
+
+def _wrap_json(mds, inner):
+    for md in reversed(mds):
+        inner = {"md": md["json"], "src": inner}
+    return inner
+
+
+def _wrap_src(mds, inner):
+    for md in reversed(mds):
+        inner = f"MetaData({inner}, {md['py']!r})"
+    return inner
+
+
+def random_session(rng):
+    counter = [0]
+
+    def md_of(b):
+        py = {"metadata_type": "add_job_script", "name": b["name"], "script": list(b["script"]), "depends_on": list(b["deps"])}
+        js = {"name": b["name"], "script": list(b["script"]), "deps": list(b["deps"])}
+        if not b["deps"] and rng.random() < 0.5:
+            del py["depends_on"]
+            js["deps"] = None
+        return {"py": py, "json": js, "block": b}
+
+    def other():
+        counter[0] += 1
+        k = counter[0]
+        return {"py": {"metadata_type": "inject_code", "name": f"c15blk{k}", "body_includes": [f"c15inc{k}.h"]}, "json": "other", "block": None}
+
+    def items_of(blocks):
+        items = []
+        for b in blocks:
+            items.append(md_of(b))
+            if rng.random() < 0.15:
+                items.append(other())
+        return items
+
+    ntr = rng.choice([1, 1, 2, 2, 3])
+    if rng.random() < 0.25:  # one list of blocks cut into translations: dependencies dangle across the cuts
+        parts = _split(rng, items_of(random_case(rng)), ntr)
+    else:  # every translation has its own list (a refused one leaves its blocks on the executor)
+        parts = [items_of(random_case(rng)) for _ in range(ntr)]
+    session = []
+    for tr_items in parts:
+        if rng.random() < 0.03:
+            tr_items = list(tr_items)
+            tr_items.insert(rng.randint(0, len(tr_items)), {"py": {"metadata_type": "zz_unknown_c15"}, "json": "bad", "block": None})
+        nq = rng.choice([1, 1, 1, 2])
+        queries = []
+        for q_items in _split(rng, tr_items, nq):
+            outer, chain, body = _split(rng, q_items, 3)
+            js = _wrap_json(outer, {"call": [_wrap_json(chain, "ds"), {"call": [_wrap_json(body, "ds")]}]})
+            src = _wrap_src(outer, f"Select({_wrap_src(chain, 'ds0')}, lambda e: {_wrap_src(body, 'e')}{_TAIL})")
+            queries.append({"json": js, "src": src, "mds": outer + chain + body})
+        session.append(queries)
+    return session
+
+
+def impl_session(session):
+    import pathlib
+    import shutil
+    import tempfile
+
+    import pipeline as P
+
+    exe = P.make_executor("atlas")
+    results = []
+    for queries in session:
+        out = pathlib.Path(tempfile.mkdtemp(prefix="vp_c15_"))
+        try:
+            with _Limits():
+                a2 = None
+                for q in queries:
+                    a2 = exe.apply_ast_transformations(P.query_ast_functional("atlas", q["src"]))
+                exe.write_cpp_files(a2, out)
+            results.append({"ok": list(exe.recorded_info["job_option_additions"]), "text": (out / "ATestRun_eljob.py").read_text()})
+        except TimeoutError:
+            results.append({"err": "Timeout"})
+        except MemoryError:
+            results.append({"err": "MemoryError"})
+        except Exception as e:
+            results.append({"err": type(e).__name__})
+        finally:
+            shutil.rmtree(out, ignore_errors=True)
+    return results
+
+
+def _nonblank(text):
+    return [l for l in text.split("\n") if l.strip() != ""]
+
+
+def _region(text):
+    rendered = text.split("\n")
+    try:
+        a = rendered.index("job.sampleHandler(sh)")
+        z = rendered.index("# Create the algorithm's configuration.")
+        return [l for l in rendered[a + 1 : z] if l.strip() != ""]
+    except ValueError:
+        return None
+
+
+def run_exec(ctx):
+    n = 150 if ctx.tier == "quick" else 2000
+    sessions = [random_session(ctx.rng) for _ in range(n)]
+    real = [impl_session(s) for s in sessions]
+    ans = ctx.driver(DRIVER, [{"op": "exec", "session": [[q["json"] for q in tr] for tr in s]} for s in sessions])
+    spec_reqs, spec_at = [], []
+    for si, (s, rr, a) in enumerate(zip(sessions, real, ans)):
+        ctx.count("stream:executor")
+        ctx.count(f"exec:translations:{len(s)}")
+        shown = [[q["src"] for q in tr] for tr in s]
+        ctx.case(("exec", shown), sum(len(q["mds"]) for tr in s for q in tr) >= 2, {"session": shown, "executor": [{k: v for k, v in r.items() if k != "text"} for r in rr]})
+        if "bad" in a:
+            continue
+        mm = a["results"]
+        fresh = True  # the executor is empty before this translation
+        for ti, (tr, r, m) in enumerate(zip(s, rr, mm)):
+            ctx.count("exec:" + ("ok" if "ok" in r else r["err"]))
+            if "err" in m:
+                ctx.count("exec-model-error:" + m["err"])
+            mds = [md for q in tr for md in q["mds"]]
+            has_bad = any(md["json"] == "bad" for md in mds)
+            if fresh and not has_bad:
+                blocks = [md["block"] for md in mds if md["block"] is not None]
+                spec_reqs.append({"op": "spec", "blocks": blocks, "result": {"ok": r["ok"]} if "ok" in r else r})
+                spec_at.append((shown, ti, blocks, r))
+            if "ok" in r:
+                reg = _region(r["text"])
+                if reg is not None and reg != r["ok"]:
+                    ctx.violation(
+                        key="exec-render:" + repr(shown[: ti + 1]),
+                        what="the lines rendered into ATestRun_eljob.py differ from the generated script (dropped, duplicated or reordered by the template)",
+                        case={"session": shown[: ti + 1]},
+                        observed={"ok": r["ok"], "region": reg},
+                    )
+            cm = {"err": "ValueError"} if m.get("err") in ("metadata", "conflict", "missing", "cycle") else m
+            if ("ok" in cm) != ("ok" in r) or cm.get("err") != r.get("err") or cm.get("ok") != r.get("ok"):
+                ctx.disagreement("executor session vs ModelExec.lean", {"session": shown, "translation": ti}, {k: v for k, v in cm.items() if k != "text"}, {k: v for k, v in r.items() if k != "text"})
+            elif "ok" in r and cm["text"] != r["text"]:
+                if _nonblank(cm["text"]) == _nonblank(r["text"]):
+                    ctx.count("exec:render-differs-in-blank-lines-only")
+                else:
+                    ctx.disagreement("rendered ATestRun_eljob.py vs render_exact", {"session": shown, "translation": ti}, _nonblank(cm["text"]), _nonblank(r["text"]))
+            elif "ok" in r:
+                ctx.count("exec:rendered-file-identical")
+            fresh = "ok" in r  # reset() only after a successful write
+    sp = ctx.driver(DRIVER, spec_reqs)
+    for (shown, ti, blocks, r), sres in zip(spec_at, sp):
+        if "bad" in sres:
+            continue
+        if not sres.get("holds", False):
+            ctx.violation(
+                key="exec:" + repr(shown[: ti + 1]),
+                what=f"the job-option lines of a translation with several MetaData calls violate the block-order specification: {sres.get('why')}",
+                case={"session": shown[: ti + 1], "blocks": blocks, "via": "apply_ast_transformations per query, then write_cpp_files, on one atlas_xaod_executor"},
+                observed={k: v for k, v in r.items() if k != "text"},
+                how="queries of `session` (func_adl call trees over ds0) translated in order on one executor",
+            )
+
+
 def search(ctx, broken):
     """Run a larger random sweep with the Spec as the only judge."""
     meta = []
@@ -331,24 +712,61 @@ def shrink(ctx, b, r, s):
 
 
 def replay(ctx, rep) -> int:
-    blocks = rep["case"]["blocks"]
-    r = impl(blocks)
+    case = rep["case"]
+    if "session" in case:  # executor stream: the queries again, in order, on one fresh executor
+        rr = impl_session([[{"src": q} for q in tr] for tr in case["session"]])
+        r = rr[-1]
+        print("executor returned:", [{k: v for k, v in x.items() if k != "text"} for x in rr])
+        bad = 0
+        if "ok" in r and _region(r["text"]) is not None and _region(r["text"]) != r["ok"]:
+            print("rendered region:", _region(r["text"]))
+            bad = 1
+        if "blocks" in case:
+            s = ctx.driver(DRIVER, [{"op": "spec", "blocks": case["blocks"], "result": {"ok": r["ok"]} if "ok" in r else r}])[0]
+            print("spec:", s)
+            bad = bad or (0 if s.get("holds") else 1)
+        return bad
+    blocks = case["blocks"]
+    if "via" in case:  # end-to-end stream
+        r = impl_e2e(blocks)
+        if "ok" in r and r.get("region") is not None and r["region"] != r["ok"]:
+            print("pipeline returned:", r)
+            return 1
+        r = {"ok": r["ok"]} if "ok" in r else r
+    else:
+        r = impl(blocks)
     s = ctx.driver(DRIVER, [{"op": "spec", "blocks": blocks, "result": r}])[0]
     print("implementation returned:", r)
     print("spec:", s)
     return 0 if s.get("holds") else 1
 
+
 LEVEL_TEXT = (
-    "Machine-checked proof (Lean 4) about a hand model of generate_script_block, for every finite list of blocks: "
-    "soundness of the emitted order (each distinct block once, contiguous, after all its dependencies incl. those of "
-    "repeated blocks), exact characterisation of the refusals (conflict / missing / cycle, nothing else), termination. "
-    "The model is tied to the code on every run by running both on an exhaustive small space plus random lists; the "
-    "decidable Spec is also evaluated directly on the implementation's outputs."
+    "Machine-checked proof (Lean 4, 39 theorems) about a hand model of generate_script_block and of the executor path "
+    "around it, for every finite list of blocks / every query tree: soundness of the emitted order (each distinct block "
+    "once, contiguous, after all its dependencies incl. those of repeated blocks); exact refusal condition (refused iff "
+    "conflict, dangling dependency or a dependency cycle of any length among the sent blocks - refused_iff, with the kind "
+    "of error - refusal_kind_iff); termination; WHICH order is emitted (order_fifo / order_unique: the FIFO work list over "
+    "the arrival order; not_kahn_counterexample); determinism (order_congr: only arrival order of names, scripts and "
+    "dependency SETS matter), invariance under repeated identical blocks, under permutation / repetition inside depends_on "
+    "lists, under permutations that keep the arrival order of names; stability (sorted_fixed) and idempotence; permutation "
+    "of arrival: refusal and its kind invariant, emitted blocks the same, order in general different (counterexample "
+    "theorems). Executor level: blocks of all MetaData calls of all queries of a translation are merged as one list "
+    "(exec_sound, exec_refused_iff, exec_conflict, exec_union), the executor is empty after a successful write and keeps "
+    "its blocks after a refused one (session_*), and the rendered ATestRun_eljob.py is exactly text / separator-line-"
+    "separator per script line / text (render_exact, over the template regenerated as Lean data from its source on every "
+    "run: template_shape, template_separators). The models are tied to the code on every run by running both on an "
+    "exhaustive small space plus random lists (generate_script_block), on random multi-query sessions of one real "
+    "atlas_xaod_executor (lines and whole rendered file compared) and by instantiating the invariance theorems on the real "
+    "function; the decidable Spec is evaluated directly on the implementation's outputs in all streams."
 )
 LEVEL_NOTE = (
-    "Trusted: Lean kernel (axioms audited: propext, Classical.choice, Quot.sound only); the hand model's agreement with "
-    "the Python is checked by differential execution, not proved; harness and generators; Python dict order. "
-    "The insertion of the lines into ATestRun_eljob.py is covered under C14."
+    "Trusted: Lean kernel (axioms audited: propext, Classical.choice, Quot.sound only); the hand models' agreement with "
+    "the Python is checked by differential execution, not proved; the translator of the template (jinja2's lexer); harness "
+    "and generators; Python dict order. Error payloads (message texts) are outside the statements: invariance theorems "
+    "are about the emitted order, the text and the KIND of refusal. Only the jinja2 fragment the template uses is "
+    "modelled (text, one filter-free for loop, filter-free variable); anything else makes template_shape fail to build. "
+    "The other slots of the package are covered under C14."
 )
-TECHNIQUE = "Lean 4 theorems over a hand model + correspondence check (differential execution) against generate_script_block"
+TECHNIQUE = "Lean 4 theorems over hand models (script generator, executor path, template as generated data) + correspondence checks (differential execution, metamorphic instances of the theorems) against the real code"
 DESIGN_REF = "DESIGN.md §4 C15"
